@@ -491,6 +491,74 @@ def _c16_check(store, step, op, memo):
 J.setdefault("C16", []).append(("history", _history_hook(_c16_check)))
 
 
+def _comp_content(c):
+    return [[(b.time_signature_numerator, b.time_signature_denominator, b.key_signature, _content(b.sequence)) for b in t.bars]
+            for t in c.tracks]
+
+
+@judge_for("C16", "composition")
+def j_c16_comp(inp):
+    rels, meta, ti, bi, k = inp
+    from scoda.elements.composition import Composition
+    try:
+        c = Composition.from_sequences([mk_rel(ms) for ms in rels], meta)
+        cp = c.copy()
+    except Exception:
+        return None
+    v = []
+    before = _comp_content(c)
+    if _comp_content(cp) != before:
+        v.append("a copy of the composition differs from it")
+    if ti < len(cp.tracks) and bi < len(cp.tracks[ti].bars):
+        try:
+            cp.tracks[ti].bars[bi].transpose(k)
+            cp.tracks[ti].bars[bi].sequence.pad(500)
+        except Exception:
+            return v
+        if _comp_content(c) != before:
+            v.append("operating on a bar of the copy changed the original composition")
+        b0 = c.tracks[ti].bars[bi]
+        try:
+            b0.sequence.set_channel(7)
+        except Exception:
+            return v
+        if any(ch == 7 for (_, ch, *_r) in _comp_content(cp)[ti][bi][3][0]):
+            v.append("operating on a bar of the original changed the copy")
+    return v
+
+
+@judge_for("C14", "composition")
+def j_c14_bar(inp):
+    rels, meta, ti, bi, k = inp
+    from scoda.elements.composition import Composition
+    try:
+        c = Composition.from_sequences([mk_rel(ms) for ms in rels], meta)
+    except Exception:
+        return None
+    if not (ti < len(c.tracks) and bi < len(c.tracks[ti].bars)):
+        return None
+    b = c.tracks[ti].bars[bi]
+    k0 = b.key_signature
+    notes0 = roll(abs_of(b.sequence))
+    try:
+        flag = b.transpose(k)
+    except Exception as e:
+        return [f"Bar.transpose raised {type(e).__name__}: {e}"]
+    v = []
+    if k0 is not None:
+        if b.key_signature is None:
+            v.append("the bar's key became undefined")
+        elif (TONIC[b.key_signature.name] - TONIC[k0.name] - k) % 12:
+            v.append(f"bar key {k0.name} transposed by {k} gave {b.key_signature.name}")
+    out = abs_of(b.sequence)
+    if any(not (21 <= m[4] <= 108) for m in out if m[0] in ("NOTE_ON", "NOTE_OFF")):
+        v.append("note outside the playable range in a transposed bar")
+    if notes0 is not None and not flag and all(21 <= n[1] + k <= 108 for n in notes0):
+        if roll(out) != sorted((c_, p + k, on, d, vel) for c_, p, on, d, vel in notes0):
+            v.append("bar notes are not the plain shift")
+    return v
+
+
 # ---- C05
 @judge_for("C05", "quantise")
 def j_c05(inp):
